@@ -119,6 +119,11 @@ func VerifTempDir() string {
 	return d
 }
 
+// VerifStepBudget declares that the code that follows must finish within n
+// interpreted instructions; exceeding it is reported as a hang.  Natively the
+// replay driver's wall-clock limit plays that role.
+func VerifStepBudget(n int) {}
+
 // VerifFreeze marks everything reachable from v as shared between readers
 // (C19 frame condition); natively a no-op.
 func VerifFreeze(v interface{}) {}
